@@ -49,6 +49,9 @@ Observe ==
     \* burst phase of the driver: all threads interned the same content at the same moment and held their handles:
     \* Dedup says they share one buffer; the driver counts the times they did not
     /\ ("burst_split" \in DOMAIN Ev => Ev.burst_split = 0)
+    \* churn phase: a thread held a handle of a content and made a second one while its partner kept making and
+    \* dropping handles of the same content: two live handles with equal contents - one buffer (Dedup)
+    /\ ("churn_split" \in DOMAIN Ev => Ev.churn_split = 0)
     /\ Ev.final => \A t \in Threads, i \in Slots : P.slot[t][i] = NoBuf
     /\ slot' = P.slot /\ made' = P.made /\ pending' = P.pending /\ table' = P.table
     /\ strong' = P.strong /\ bcontent' = P.bcontent /\ nextBuf' = P.next
